@@ -2,7 +2,7 @@
 From Coq Require Import List ZArith Bool Permutation Sorted.
 From Coq.Strings Require Import Byte.
 Import ListNotations.
-From SV Require Import Text G_gff C02_Model C02_Lemmas C02_Order C02_Line C02_Score C02_Feat C02_Read C02_Fix C02_Cycle C02_Cycle2 C02_Harness C02_Lenient C02_Third C02_Xsv C02_Opts C02_Disp.
+From SV Require Import Text G_gff C02_Model C02_Lemmas C02_Order C02_Line C02_Score C02_Feat C02_Read C02_Fix C02_Cycle C02_Cycle2 C02_Harness C02_Lenient C02_Third C02_Xsv C02_Xsv2 C02_Opts C02_Disp.
 Local Open Scope Z_scope.
 
 (* percent-encoding is undone exactly, for every byte string *)
@@ -269,6 +269,32 @@ Theorem C02_xrecord_table : forall ft names row ty a b sd, xrecord_s ft names ro
 Proof. exact xrecord_table. Qed.
 Print Assumptions C02_xrecord_table.
 
+(* exactly the one-character texts + - . ? are strands *)
+Theorem C02_strand_mapping : forall c, strand_ok c = true <-> In c ["+"; "-"; "."; "?"]%byte.
+Proof. exact strand_mapping. Qed.
+Print Assumptions C02_strand_mapping.
+
+(* blank lines anywhere in a table do not change what is read *)
+Theorem C02_blank_lines_skipped : forall sep ft ls, Forall (fun t => has x0a t = false) ls ->
+  read_xsv sep ft (concat (map (fun l => l ++ nl) ls)) = read_xsv sep ft (concat (map (fun l => l ++ nl) (filter nonblank ls))).
+Proof. exact blank_lines_skipped. Qed.
+Print Assumptions C02_blank_lines_skipped.
+
+(* ANY table, also from elsewhere: a record given as (column name, cell) pairs with distinct names is read the same way in every
+   column order *)
+Theorem C02_column_order_irrelevant : forall ft (cols cols' : list (str * str)), Permutation cols cols' -> NoDup (map fst cols) ->
+  xrecord_s ft (map fst cols) (map snd cols) = xrecord_s ft (map fst cols') (map snd cols').
+Proof. exact column_order_irrelevant. Qed.
+Print Assumptions C02_column_order_irrelevant.
+
+(* the column-key model of the earlier theorems (C02_xsv_arith, C02_xsv_list; still evaluated by the history stream) is the
+   column-name model restricted to the five names *)
+Theorem C02_xrecord_bridge : forall ks f, loc_valid f = true -> strand_ok (feat_strand_m f) = true -> feat_type f <> Some [] ->
+  xrecord_s None (map kname ks) (nrow (map kname ks) f) =
+  match xrecord ks (xrow ks f) with Some (Some (ty, a, b, sd)) => XRec ty a b sd | Some None => XVal | None => XKey end.
+Proof. exact xrecord_bridge. Qed.
+Print Assumptions C02_xrecord_bridge.
+
 (* ---- options of the GFF reader and writer (round 7) ---- *)
 (* filt_fast=text: the file is read as if the lines that do not contain the text (case-insensitive) were not there *)
 Theorem C02_read_filt_fast : forall fl ff d ls acc id cm,
@@ -401,3 +427,9 @@ Proof. exact ex_filters_ok. Qed.
 Example C02_witness_dispatch : fmt_key (bs "TsV"%bs) = Some FTsv /\ fmt_key (bs "tsv "%bs) = None /\
   names_ok (default_sep FCsv) [n_start; k_type; n_len] = true /\ forallb (feat_clean (default_sep FCsv) [n_start; k_type; n_len]) ex_table = true.
 Proof. exact (conj eq_refl (conj eq_refl (conj eq_refl eq_refl))). Qed.
+
+(* the score domain holds both shapes repr() gives a float, and not their non-canonical spellings *)
+Example C02_witness_score_shapes :
+  forallb canon_float (map bs ["1e-05"; "2.5e-07"; "1e+16"; "-1.5e+20"; "1.234e-05"; "1e+100"; "-3e-10"; "12.25"; "0.0001"]%bs) = true
+  /\ existsb canon_float (map bs ["1e-5"; "1e-04"; "1e+15"; "10e-05"; "1.0e-05"; "1.50e-07"; "1e16"; "0e-05"; "1E-05"; "1e-005"; "e-05"; "0.00001"; "-0.0"]%bs) = false.
+Proof. exact canon_exp_ex. Qed.
